@@ -418,6 +418,32 @@ theorem C14_model_meets_spec_artifact (H : Sha1) (eid handle : Bytes) (idx : Int
     simp only [Bool.not_eq_true', Bool.and_eq_false_iff, decide_eq_false_iff_not]
     omega
 
+/-- **Histories.**  After any history, resolving an artifact answers from the table loaded LAST:
+    a reload followed by a resolution gives exactly what `artifact2destination` gives on the new
+    table (nothing of an earlier table survives), and issuing or resolving never changes the table. -/
+theorem C14_artifact_history_in_force {α : Type} [DecidableEq α] (showInt : Int → α) (st : ArtState α)
+    (store : List (ArtEntity α)) (i : Nat) (art : Bytes) (h : st.seen[i]? = some art) :
+    runArt showInt st [.reload store, .resolve i] =
+      [.reloaded, .resolved (some (artifact2destination showInt store art))] ∧
+    (∀ s, (∀ s', s ≠ ArtStep.reload s') → (stepArt showInt st s).1.store = st.store) := by
+  constructor
+  · simp [runArt, stepArt, h]
+  · intro s hs
+    cases s with
+    | issue eid sid handle idx =>
+      simp only [stepArt]
+      split <;> rfl
+    | reload s' => exact absurd rfl (hs s')
+    | resolve j =>
+      simp only [stepArt]
+      split <;> rfl
+
+example : runArt (fun i => toString i) { store := [{ sourceId := List.replicate 20 7, descriptors := [some [("1", "old")]] }] }
+    [.issue [101] (List.replicate 20 7) [1, 2] 1,
+     .reload [{ sourceId := List.replicate 20 7, descriptors := [some [("1", "new")]] }], .resolve 0] =
+    [.issued (createArtifact (fun _ => List.replicate 20 7) [101] [1, 2] 1) (some (.dest "old")), .reloaded,
+     .resolved (some (.dest "new"))] := by decide
+
 example : decodeArtifact ((createArtifact (fun _ => List.replicate 20 7) [101] [1, 2, 3] 171).getD []) =
     some { index := 171, sourceId := List.replicate 20 7 } := by decide
 
